@@ -46,6 +46,8 @@ type frame struct {
 	result    Value
 	panicking bool
 	panic     any
+	sp        int
+	recovered bool
 }
 
 type task struct {
@@ -196,13 +198,12 @@ func (ex *Exec) callSSA(caller *frame, fn *ssa.Function, args []Value, env []Val
 	if fn.Blocks == nil {
 		panic(unsupported("no body: " + fn.String()))
 	}
-	ex.depth++
-	if ex.depth > 400 {
+	if len(ex.stack) > 400 {
 		panic(pathAbort{"budget", "call depth exceeded in " + fn.String()})
 	}
-	defer func() { ex.depth-- }()
+	ex.stack = append(ex.stack, fn)
 	ex.touch(fn)
-	fr := &frame{ex: ex, caller: caller, fn: fn, env: make(map[ssa.Value]Value, 16)}
+	fr := &frame{ex: ex, caller: caller, fn: fn, env: make(map[ssa.Value]Value, 16), sp: len(ex.stack)}
 	fr.block = fn.Blocks[0]
 	for i, p := range fn.Params {
 		fr.env[p] = args[i]
@@ -217,6 +218,10 @@ func (ex *Exec) callSSA(caller *frame, fn *ssa.Function, args []Value, env []Val
 	}
 	for fr.block != nil {
 		ex.runFrame(fr)
+	}
+	ex.stack = ex.stack[:fr.sp-1]
+	if fr.recovered && fr.fn.Recover == nil {
+		return ex.zero(fn.Signature.Results())
 	}
 	return fr.result
 }
@@ -236,8 +241,10 @@ func (ex *Exec) runFrame(fr *frame) {
 		}
 		fr.panicking = true
 		fr.panic = gp
+		ex.stack = ex.stack[:fr.sp]
 		ex.runDefers(fr)
 		// recovered
+		fr.recovered = true
 		fr.block = fr.fn.Recover
 	}()
 	for {
@@ -271,11 +278,8 @@ func (ex *Exec) runFrame(fr *frame) {
 func (ex *Exec) visitTolerant(fr *frame, instr ssa.Instruction) (k continuation) {
 	defer func() {
 		if r := recover(); r != nil {
-			pa, ok := r.(pathAbort)
-			if !ok || pa.kind != "unsupported" {
-				if _, isGo := r.(goPanic); !isGo {
-					panic(r)
-				}
+			if pa, ok := r.(pathAbort); ok && pa.kind != "unsupported" {
+				panic(r)
 			}
 			// poison the result and continue
 			if v, ok := instr.(ssa.Value); ok {
@@ -839,6 +843,10 @@ func (ex *Exec) call(caller *frame, fn Value, args []Value) Value {
 }
 
 func (ex *Exec) callFn(caller *frame, fn *ssa.Function, args []Value, env []Value) Value {
+	if fn.Synthetic == "package initializer" && fn.Pkg != nil {
+		ex.ensureInit(fn.Pkg)
+		return nil
+	}
 	if in := ex.prog.intrinsic(fn); in != nil {
 		ex.step()
 		return in(ex, caller, fn, args)
